@@ -365,6 +365,38 @@ Definition wr_bytes (x : wr) : option str :=
   | WPanic => None
   end.
 
+(* ---- files: what a line reports belongs to the current file ---- *)
+(* the figures a line is computed from: the prefix already present (preSize), the size and
+   the position of the current file *)
+Definition figs (st : pstate) : Z * Z * Z := (p_pre st, p_size st, p_step st).
+
+(* how one callback changes them - nothing else of the state is involved *)
+Definition figs_next (o : op) (f : Z * Z * Z) : Z * Z * Z :=
+  let '(pre, size, step) := f in
+  match o with
+  | OpName _ => (0, size, Consts.progress_initial_step)
+  | OpSize z => (pre, wrap64 (pre + z), step)
+  | OpStep z _ _ _ _ => let s := wrap64 (z + pre) in if s <=? step then f else (pre, size, s)
+  | OpDone _ _ _ _ => if size =? 0 then f else (pre, size, size)
+  | OpPre z => (z, size, step)
+  | OpNum _ | OpPause _ | OpCols _ => f
+  end.
+
+(* the callbacks transfer.go / append.go make for ONE file, in their order: the name; if the
+   destination already has a prefix (overwrite mode, protocol >= 3) the full size, the hash
+   steps that matched and the length of the matching prefix; then the size still to send,
+   the data steps (from 0) and the end *)
+Definition step_arg := (Z * Z * (str * str * str))%type.   (* step, clock, total/speed/ETA texts *)
+Definition mk_step (a : step_arg) : op := let '(z, now, (t, s, e)) := a in OpStep z now t s e.
+Definition mk_done (a : step_arg) : op := let '(_, now, (t, s, e)) := a in OpDone now t s e.
+Definition file_ops (name : str) (full : Z) (resume : option (list step_arg * Z))
+           (steps : list step_arg) (done : step_arg) : list op :=
+  OpName name ::
+  match resume with
+  | Some (hs, m) => OpSize full :: map mk_step hs ++ [OpPre m; OpSize (full - m)]
+  | None => [OpSize full]
+  end ++ map mk_step steps ++ [mk_done done].
+
 (* ---- the session state machine ---- *)
 Record session := { s_cols : Z; s_bar : option pstate }.
 
